@@ -431,6 +431,27 @@ func (e *fnEnc) call(st *state, at ssa.Value, c *ssa.CallCommon, instr ssa.Instr
 			}
 		}
 		e.bumpNext(st)
+		if fc.ModNone {
+			// the host writes nothing itself: what every invocation of the literal preserves
+			// (callback-stable) and every reflexive-transitive relation it establishes
+			// (callback-relation) holds across the host call
+			for _, ce := range cbEffects {
+				post := *ce.env
+				post.st = st
+				post.old = pre
+				for _, r := range ce.fc.Requires {
+					if clauseMentionsParams(r.Expr, ce.env.fn) {
+						continue
+					}
+					e.assume(st, post.evalBool(r.Expr))
+				}
+				for _, r := range ce.fc.Ensures {
+					if strings.HasPrefix(r.Label, "transitive:") && !clauseMentionsParams(r.Expr, ce.env.fn) {
+						e.assume(st, post.evalBool(r.Expr))
+					}
+				}
+			}
+		}
 	case cbHavoc:
 		e.checkFrameCall(st, c, key)
 		e.havocAll(st)
